@@ -45,7 +45,7 @@ M = [
     ("C05", "small_animal_energy_density_changed", MD, "self.SMALL_ANIMAL_KCALS_PER_KG = 1525", "self.SMALL_ANIMAL_KCALS_PER_KG = 1625"),
     ("C05", "retail_waste_applied_to_meat", MD, "            initial_meat_prewaste * (1 - self.MEAT_WASTE_DISTRIBUTION / 100),", "            initial_meat_prewaste\n            * (1 - self.MEAT_WASTE_DISTRIBUTION / 100)\n            * (1 - self.MEAT_WASTE_RETAIL / 100),"),
     ("C05", "milk_from_dairy_cattle_only", AP, '            if "milk" in animal.animal_type:\n                total_dairy += np.array(animal.population)', '            if animal.animal_type == "milk_cattle":\n                total_dairy += np.array(animal.population)'),
-    ("C05", "round3_herds_fed_full_demand", PAR, "                available_feed=feed_sum_billion_kcals,", "                available_feed=feed_demand,"),
+    ("C03", "round3_herds_fed_full_demand", PAR, "                available_feed=feed_sum_billion_kcals,", "                available_feed=feed_demand,"),
     ("C06", "births_counted_twice", AP, "                new_additive_animals_month = (\n                    births[animal.animal_type]\n                    + transfer_populations[animal.animal_species]\n                )", "                new_additive_animals_month = (\n                    2 * births[animal.animal_type]\n                    + transfer_populations[animal.animal_species]\n                )"),
     ("C06", "retirements_not_subtracted", AP, "            new_other_animal_death + retiring_animals,\n            current_slaughter_rate,", "            new_other_animal_death,\n            current_slaughter_rate,"),
     ("C06", "target_floor_removed", AP, "        elif (\n            new_animal_population_pre_slaughter - new_slaughter_rate\n            < animal.target_population_head\n        ):", "        elif False:"),
@@ -67,7 +67,7 @@ M = [
     ("C09", "greenhouse_ramp_one_month_short", "src/food_system/greenhouses.py", "                        np.linspace(0, GREENHOUSE_LIMIT_AREA, 37),", "                        np.linspace(0, GREENHOUSE_LIMIT_AREA, 36),"),
     ("C09", "exponent_applied_above_one", OC, "            if baseline_reduction > 1:\n                self.KCALS_GROWN.append(month_kcals * baseline_reduction)\n            else:", "            if baseline_reduction > 1e9:\n                self.KCALS_GROWN.append(month_kcals * baseline_reduction)\n            else:"),
     ("C10", "fat_billions_fed_factor", UC, "        thou_tons_fat_to_billion_people = 1 / conversions.fat_monthly / 1e9", "        thou_tons_fat_to_billion_people = 1 / conversions.fat_monthly"),
-    ("C10", "per_month_branch_uses_each_month_units", UC, '                to_units_kcals + " per month",\n                to_units_fat + " per month",\n                to_units_protein + " per month",\n            )', '                to_units_kcals + " each month",\n                to_units_fat + " per month",\n                to_units_protein + " per month",\n            )'),
+    ("C10", "per_month_result_labelled_each_month", UC, '            new_units_kcals = to_units_kcals + " per month"\n', '            new_units_kcals = to_units_kcals + " each month"\n'),
     ("C10", "thirty_one_day_month_for_kcals", UC, "        self.kcals_monthly = kcals_daily * self.days_in_month", "        self.kcals_monthly = kcals_daily * 31"),
     ("C11", "neg_mixes_labels", FD, "            kcals=-self.kcals,\n            fat=-self.fat,\n            protein=-self.protein,\n            kcals_units=self.kcals_units,\n            fat_units=self.fat_units,", "            kcals=-self.kcals,\n            fat=-self.fat,\n            protein=-self.protein,\n            kcals_units=self.fat_units,\n            fat_units=self.fat_units,"),
     ("C11", "shift_in_place", FD, "        kcals_shifted = np.roll(self.kcals, months)\n", "        self.kcals[:] = np.roll(self.kcals, months)\n        kcals_shifted = self.kcals\n"),
